@@ -96,6 +96,9 @@ fn main() {
             let info = pair::generate(&a.tier, a.seed, shard, nshards, &a.out);
             println!("{}", info);
         }
+        "pair-debug" => {
+            pair::debug(&argv[2], argv[3].parse().unwrap(), &argv[4]);
+        }
         "skel" => {
             // vharness skel <server|client> <shard> <nshards> <paths.json> --out FILE
             let side = a.rest[0].clone();
